@@ -536,6 +536,26 @@ fn g1_raw() -> Vec<(&'static str, Vec<u8>)> {
         ("all ff", with(0xff, 0xff)),
         ("x = p - 1 region", with(0x9a, 0xff)),
     ]
+    .into_iter()
+    .chain(small_x(48))
+    .collect()
+}
+/// compressed encodings with a tiny x coordinate, both sign flags: about half are points of the curve
+/// and essentially none lies in the prime-order subgroup, i.e. inputs on which only the checked
+/// (untrusted) decoder may refuse
+fn small_x(len: usize) -> Vec<(&'static str, Vec<u8>)> {
+    const NAMES: [&str; 16] = [
+        "small x=1 +", "small x=1 -", "small x=2 +", "small x=2 -", "small x=3 +", "small x=3 -", "small x=4 +", "small x=4 -",
+        "small x=5 +", "small x=5 -", "small x=6 +", "small x=6 -", "small x=7 +", "small x=7 -", "small x=8 +", "small x=8 -",
+    ];
+    (0..16)
+        .map(|i| {
+            let mut v = vec![0u8; len];
+            v[0] = if i % 2 == 0 { 0x80 } else { 0xa0 };
+            v[len - 1] = (i / 2 + 1) as u8;
+            (NAMES[i], v)
+        })
+        .collect()
 }
 fn g2_raw() -> Vec<(&'static str, Vec<u8>)> {
     let with = |first: u8, rest: u8| {
@@ -551,6 +571,9 @@ fn g2_raw() -> Vec<(&'static str, Vec<u8>)> {
         ("no compression flag", with(0x00, 0)),
         ("all ff", with(0xff, 0xff)),
     ]
+    .into_iter()
+    .chain(small_x(96))
+    .collect()
 }
 fn sk_raw() -> Vec<(&'static str, Vec<u8>)> {
     // group order r of BLS12-381 and its neighbours
